@@ -1,0 +1,27 @@
+//go:build verif
+// +build verif
+
+package wasp
+
+// MIDPoolForVerif exposes the unexported identifier pool to the verification harness
+// (built with -tags verif only).
+type MIDPoolForVerif struct {
+	p *simpleMidPool
+}
+
+func NewMIDPoolForVerif(min, max int32) *MIDPoolForVerif {
+	return &MIDPoolForVerif{p: newMIDPool(min, max).(*simpleMidPool)}
+}
+func (m *MIDPoolForVerif) Get() int32    { return m.p.Get() }
+func (m *MIDPoolForVerif) Put(mid int32) { m.p.Put(mid) }
+
+// Intervals returns the free list as (from, to] pairs.
+func (m *MIDPoolForVerif) Intervals() [][2]int32 {
+	m.p.mtx.Lock()
+	defer m.p.mtx.Unlock()
+	out := make([][2]int32, 0, len(m.p.intervals))
+	for _, i := range m.p.intervals {
+		out = append(out, [2]int32{i.from, i.to})
+	}
+	return out
+}
